@@ -464,6 +464,11 @@ def gen_procedures(rng, tier, seed):
         case['situation'] = rng.choice(['peer_present', 'peer_present', 'peer_absent', 'peer_vanishes'])
         if proc == 'classic_create' and rng.random() < 0.3:
             case['situation'] += '+cancel'
+        elif proc == 'classic_create' and rng.random() < 0.3:
+            # the paged host accepts asking for the central role (a role switch before the connection completes), and the
+            # paging host may or may not allow that
+            case['situation'] = 'peer_present+accept_as_central'
+            case['allow_role_switch'] = rng.randrange(2)
         elif proc == 'classic_create' and rng.random() < 0.35:
             # two pages towards two present peers pending at once; the first peer's host may be slow to accept
             case['situation'] = 'two_peers'
@@ -558,7 +563,17 @@ def run_procedures(case):
             cmds.append(hci.HCI_LE_Enable_Encryption_Command(connection_handle=handle, random_number=bytes(8), encrypted_diversifier=0, long_term_key=bytes(16)))
         elif proc == 'classic_create':
             addr = n1.controller.public_address if 'absent' not in situation else hci.Address('DE:AD:BE:EF:00:01', hci.Address.PUBLIC_DEVICE_ADDRESS)
-            cmds.append(hci.HCI_Create_Connection_Command(bd_addr=addr, packet_type=0xCC18, page_scan_repetition_mode=2, reserved=0, clock_offset=0, allow_role_switch=1))
+            cmds.append(hci.HCI_Create_Connection_Command(bd_addr=addr, packet_type=0xCC18, page_scan_repetition_mode=2, reserved=0, clock_offset=0,
+                                                          allow_role_switch=case.get('allow_role_switch', 1)))
+            if 'accept_as_central' in situation:
+                async def accept_as_central():
+                    try:
+                        await n1.device.accept(role=hci.Role.CENTRAL, timeout=20.0)
+                    except Exception:
+                        pass
+                sim.loop.create_task(accept_as_central())
+                sim.loop.settle(vt_budget=0.001)
+                sim.probe('paged_host_accepts_asking_for_the_central_role')
             if '+cancel' in situation:
                 later.append((case['when'], lambda: sim.loop.create_task(host.send_command(hci.HCI_Create_Connection_Cancel_Command(bd_addr=addr)))))
             if situation == 'two_peers':
